@@ -1,5 +1,5 @@
 ------------------------------- MODULE MC_Spans -------------------------------
-EXTENDS Spans, Json, IOUtils
+EXTENDS Spans, Sites, Json, IOUtils
 Obs == IF IOEnv.OBS = "" THEN <<>> ELSE ndJsonDeserialize(IOEnv.OBS)
 \* fault plantings: kind x host x prefix
 RenderFaults == {"undefined-var", "undefined-field", "math-on-string", "divide-by-zero", "filter-receiver", "filter-missing-arg", "iterate-scalar",
@@ -9,7 +9,15 @@ SyntaxFaults == {"dangling-operator", "empty-if", "stray-endfor", "unterminated-
                  "missing-endif", "bad-filter-call", "assign-keyword", "unclosed-comment",
                  "unclosed-tag-nl", "unclosed-expression-nl", "missing-endif-nl", "unclosed-comment-nl"}
 Hosts == {"entry", "included", "parent-block", "child-block-with-super", "parent-block-via-super", "component", "component-via-include",
-          "included-in-filter-section", "included-in-set-block", "included-in-component-call-body", "included-twice-nested", "component-in-capture", "included-in-loop"}
+          "included-in-filter-section", "included-in-set-block", "included-in-component-call-body", "included-twice-nested", "component-in-capture", "included-in-loop",
+          \* a component called WITH A BODY: the call site is the opening tag
+          "component-with-body"}
+\* ---- errors raised ON THE RESULT of a sub-expression: what produces the operand x what consumes it.  The consumer fails
+\* whenever the kind of the operand is not one it accepts; the error is an error value (never a panic: the engine needs a
+\* span for the operand whatever produced it), consistent, inside the expression and not cutting the operand.
+SitePairs == {pc \in (DOMAIN ProdKind) \X (DOMAIN ConsAccepts) : Fails(pc[1], pc[2])}
+SiteHosts == {"entry", "component", "included", "component-with-body"}
+SitePrefixes == {"none", "two-byte", "line2"}
 Prefixes == {"none", "ascii", "two-byte", "three-byte", "four-byte", "line2", "line3-multibyte"}
 \* delimiter sets: the default one, and one whose six delimiters are single 2-byte characters (columns count characters,
 \* ranges count bytes: the two must still designate the same position)
@@ -17,11 +25,14 @@ Delims == {"default", "one-char-2-byte"}
 VARIABLES mode, v, i
 Init == \/ mode = "plant" /\ i = 0 /\ v \in [fault : RenderFaults, host : Hosts, prefix : Prefixes, syntax : {FALSE}, delims : Delims]
         \/ mode = "plant" /\ i = 0 /\ v \in [fault : SyntaxFaults, host : {"entry", "included", "parent-block", "component"}, prefix : Prefixes, syntax : {TRUE}, delims : Delims]
+        \/ mode = "plant" /\ i = 0 /\ \E pc \in SitePairs, h \in SiteHosts, px \in SitePrefixes :
+               v = [fault |-> "site:" \o pc[1] \o ":" \o pc[2], host |-> h, prefix |-> px, syntax |-> FALSE, delims |-> "default"]
         \/ mode = "obs" /\ i \in 1..Len(Obs) /\ v = [fault |-> "", host |-> "", prefix |-> "", syntax |-> FALSE, delims |-> ""]
 Next == UNCHANGED <<mode, v, i>>
 Emit == mode = "plant" => PrintT(<<"VEC", ToJson(v)>>)
 InvConsistent == mode = "obs" => Consistent(Obs[i])
 InvLocalises == mode = "obs" => Localises(Obs[i])
+InvUncut == mode = "obs" => Uncut(Obs[i])
 InvRightTemplate == mode = "obs" => RightTemplate(Obs[i])
 InvQuoted == mode = "obs" => Quoted(Obs[i])
 InvNotes == mode = "obs" => Notes(Obs[i])
